@@ -444,6 +444,12 @@ func c20Settle(r *sysRun, busy bool) {
 		// (a pane scrolled by hand or by follow mode shows the lines from its scroll offset on - the offset is state,
 		// but it has to designate a line that exists: content is never scrolled out of sight altogether)
 		off := t.previewer.offset
+		if off < 0 && len(want) > 0 {
+			// the scroll offset designates a line of the output: with -1 every line is drawn one row too low and
+			// the last one that would fit is dropped
+			c.violate("c20.last_row_blank", "[an output of exactly as many lines as the preview window has rows: the last row is blank] (or any output: it is drawn from the second row on) the scroll offset of the preview window is %d; the command that ran last (%q) printed %d lines", off, last.Command, len(want))
+			return
+		}
 		simple := len(want) > 0 && !strings.Contains(strings.ReplaceAll(last.Emitted.String(), "\x1b[2J", ""), "\x1b")
 		if simple && off >= len(want) && last.ExitCode != 127 {
 			c.violate("c20.screen", "the preview window is scrolled to line %d of an output of %d lines: nothing of what the command that ran last (%q) printed is shown", off+1, len(want), last.Command)
